@@ -343,6 +343,8 @@ func GetAttr(v Value, attr Value, args ...Value) (Value, error) {
 		// An unhashable value (a slice, say) can never be a key.
 		if key, ok := convertValue(attr, r.Type().Key()); ok && key.Type().Comparable() {
 			retval = mapIndex(r, key)
+		} else if key, ok := numericKey(attr, r.Type().Key()); ok {
+			retval = mapIndex(r, key)
 		}
 	case reflect.Slice, reflect.Array:
 		if index, ok := sliceIndex(attr); ok && index >= 0 && index < r.Len() {
@@ -511,6 +513,29 @@ func convertValue(val Value, t reflect.Type) (reflect.Value, bool) {
 		}
 	}
 	return rv, false
+}
+
+// numericKey converts a string that is the plain spelling of a number to the
+// numeric key type t: names.1 and names['1'] find the entry of a map keyed by
+// integers, as they find the element of a slice.
+func numericKey(attr Value, t reflect.Type) (reflect.Value, bool) {
+	switch t.Kind() {
+	case reflect.Int, reflect.Int8, reflect.Int16, reflect.Int32, reflect.Int64,
+		reflect.Uint, reflect.Uint8, reflect.Uint16, reflect.Uint32, reflect.Uint64,
+		reflect.Float32, reflect.Float64:
+	default:
+		return reflect.Value{}, false
+	}
+	attr = withoutSafe(attr)
+	if reflect.ValueOf(attr).Kind() != reflect.String {
+		return reflect.Value{}, false
+	}
+	s := CoerceString(attr)
+	f, err := strconv.ParseFloat(s, 64)
+	if err != nil || CoerceString(f) != s {
+		return reflect.Value{}, false
+	}
+	return convertValue(f, t)
 }
 
 func getMethod(v Value, name string) (reflect.Value, error) {
